@@ -18,7 +18,7 @@ def make_grammars(rng, n, p_err, conflict_bias=0.0):
         lex = gram.simple_lex_for(names + (["unused"] if rng.random() < 0.3 else [])) if with_lex else []
         terms = [(1, x) for x in names]
         if rng.random() < 0.3:
-            terms.append((2, rng.choice(["+", "if", "(", "a"])))
+            terms.append((2, rng.choice(["+", "if", "(", "a", "•", "••"])))
         err = rng.random() < p_err
         if rng.random() < conflict_bias:
             gs.append({"lex": lex, "syn": gram.conflict_rich_syn(rng, terms), "err": False})
